@@ -119,9 +119,33 @@ def gen_leaf(rng, ascii_only=False):
     return s
 
 
-def gen_names(rng, model_names, canonical=False):
+# sizes and lengths the stress concretisations aim at (notes/SIZE_STRESS.md): tar name field 100,
+# ustar prefix 155, 255/256, GNU long names beyond; blobs around the decompressors' raw read
+# buffers (8 KiB xz/lzma, 128 KiB gz, one 900 kB bz2 block)
+NAME_LENGTHS = [95, 97, 98, 99, 100, 101, 102, 153, 154, 155, 156, 157, 253, 254, 255, 256, 257, 300, 1025]
+BLOB_SIZES = {1: [8191, 8192, 8193, 12000, 16384, 20000, 40000, 65535, 65537],
+              2: [131071, 131073, 200000, 1048576 + 17]}
+
+
+def gen_long_name(rng, total):
+    """an ASCII path of exactly `total` characters made of components of at most 60 characters"""
+    parts = []
+    left = total
+    while left > 0:
+        n = min(left, rng.choice([8, 23, 60]))
+        if left - n == 1:           # no room for '/x' afterwards: make this component one longer/shorter
+            n = n + 1 if n < 60 else n - 1
+        parts.append("".join(rng.choice(LEAF_CHARS[:42] + "-_.+ ") for _ in range(n)).replace("..", "ab"))
+        left -= n + 1
+    p = "/".join(parts)
+    # domain: no leading / trailing blank, does not start with './' or '/'
+    return "L" + p[1:-1] + "z" if len(p) > 1 else "L"
+
+
+def gen_names(rng, model_names, canonical=False, long_names=False):
     """real path for every model file name (incl. 'absent'); no real name is a maintainer-script /
-    control name, equals or is a directory of another one, or starts with '/' or './'"""
+    control name, equals or is a directory of another one, or starts with '/' or './'.
+    long_names: about half of the names get a length around the tar limits (100 / 155 / 255, beyond)"""
     ascii_only = not UTF8_FS
     out = {}
     used = set(CTRL_NAMES)       # file paths taken
@@ -146,6 +170,11 @@ def gen_names(rng, model_names, canonical=False):
             take(m, canon[i] if i < len(canon) else "usr/share/hello/file%d" % i)
             continue
         for _ in range(200):
+            if long_names and rng.random() < 0.5:
+                p = gen_long_name(rng, rng.choice(NAME_LENGTHS) - 2)     # the tar member is './' + p
+                if fresh(p):
+                    break
+                continue
             d = rng.choice(DIRS)
             if ascii_only and any(ord(c) > 127 for c in d):
                 continue
@@ -166,6 +195,34 @@ def gen_names(rng, model_names, canonical=False):
             if fresh(p):
                 break
         out["absent"] = p
+    return out
+
+
+def gen_big_blob(rng, stress):
+    """incompressible (random) or compressible content of a size around a read-buffer boundary"""
+    n = rng.choice(BLOB_SIZES[stress])
+    if rng.random() < 0.8:
+        return rng.randbytes(n)
+    unit = ("%d line of text\n" % rng.randrange(10 ** 9)).encode()
+    return (unit * (n // len(unit) + 1))[:n]
+
+
+def gen_fillers(rng, stress, taken):
+    """padding files of a stressed package: many (30 / 100+) members with short and long names; they are
+    never queried (the abstract content does not mention them), they make the parts long"""
+    count = rng.choice([30, 33] if stress == 1 else [99, 100, 101, 130, 257])
+    out = []
+    for i in range(count):
+        r = rng.random()
+        if r < 0.25:
+            name = "pad/%03d/" % i + gen_long_name(rng, rng.choice(NAME_LENGTHS[:17]) - 10)
+        else:
+            name = "pad/%03d-%s" % (i, gen_leaf(rng, True))
+        if name in taken:
+            continue
+        taken.add(name)
+        body = rng.randbytes(rng.choice([0, 1, 511, 512, 513, 700, 3000])) if r < 0.9 else rng.randbytes(9000)
+        out.append((name, body))
     return out
 
 
@@ -229,11 +286,16 @@ def render_md5(md5):
 class Conc:
     """one concretisation of an abstract package content pkg = {c: {name: blob id}, d: {...}, m: {name: sum id}}"""
 
-    def __init__(self, rng, pkg, qnames, canonical=False, names=None):
+    def __init__(self, rng, pkg, qnames, canonical=False, names=None, stress=0):
+        """stress 1 / 2 (size dimension, notes/SIZE_STRESS.md): data blobs and some scripts of 8 KiB..64 KiB /
+        128 KiB..1 MiB (mostly incompressible, so that the compressed parts exceed the decompressors' read
+        buffers), 30 / 100+ padding members, file names around the tar limits"""
         d = pkg["d"] or {}
         m = pkg["m"] or {}
+        self.stress = stress
         # names: share the real file names with another package (same names, different contents)
-        self.names = names if names is not None else gen_names(rng, set(qnames) | set(d) | set(m), canonical)
+        self.names = names if names is not None else gen_names(rng, set(qnames) | set(d) | set(m), canonical,
+                                                                long_names=bool(stress))
         self.fields = gen_fields(rng, canonical)
         self.blob = {}
         taken = set()
@@ -241,6 +303,8 @@ class Conc:
             if n in MAINT_SCRIPTS:
                 for _ in range(50):
                     s = b"#!/bin/sh\nexit 0\n# %s\n" % n.encode() if canonical else gen_script(rng)
+                    if stress and rng.random() < 0.4:
+                        s = b"#!/bin/sh\n" + gen_big_blob(rng, 1)
                     if s not in taken:
                         break
                 taken.add(s)
@@ -249,6 +313,8 @@ class Conc:
         for b in sorted(set(d.values())):
             for k in range(50):
                 s = (b"hello %d\n" % b) if canonical else gen_blob(rng, None if k else kinds[(b + rng.randrange(2)) % len(kinds)])
+                if stress and rng.random() < 0.85:
+                    s = gen_big_blob(rng, stress)
                 if s not in taken:
                     break
             taken.add(s)
@@ -266,6 +332,8 @@ class Conc:
             self.blob[pkg["c"]["md5sums"]] = render_md5(self.md5)
         self.cfiles = [(n, self.blob[b]) for n, b in pkg["c"].items()]
         self.dfiles = [(self.names[n], self.blob[b]) for n, b in d.items()]
+        if stress:
+            self.dfiles += gen_fillers(rng, stress, set(self.names.values()))
         if not canonical:
             rng.shuffle(self.cfiles)
             rng.shuffle(self.dfiles)
@@ -280,6 +348,7 @@ class Conc:
         c.names, c.fields, c.cfiles, c.dfiles, c.md5, c.tarfmt = names, fields, cfiles, dfiles, md5, tarfmt
         c.blob = {}
         c.sum = {}
+        c.stress = 0
         c._tars = {}
         return c
 
@@ -309,7 +378,8 @@ class Conc:
                 "blob": {str(k): v for k, v in self.blob.items()},
                 "md5": [list(x) for x in self.md5], "cfiles": [list(x) for x in self.cfiles],
                 "dfiles": [list(x) for x in self.dfiles], "tarfmt": self.tarfmt,
-                "sum": {str(k): v for k, v in self.sum.items()}, "level": getattr(self, "level", 1)}
+                "sum": {str(k): v for k, v in self.sum.items()}, "level": getattr(self, "level", 1),
+                "stress": getattr(self, "stress", 0)}
 
     @classmethod
     def from_json(cls, j):
@@ -323,6 +393,7 @@ class Conc:
         c.tarfmt = j["tarfmt"]
         c.sum = {int(k): v for k, v in j.get("sum", {}).items()}
         c.level = j.get("level", 1)
+        c.stress = j.get("stress", 0)
         c._tars = {}
         return c
 
